@@ -513,7 +513,7 @@ func TestC05(t *testing.T) {
 	rep.Level = "fault_enumeration"
 	rep.Distinct = int64(len(seen))
 	if n, _ := rep.Extra["claims_checked"].(int64); n == 0 {
-		core.HarnessError("vacuous: no recovered session ever claimed a piece")
+		rep.Vacuous("vacuous: no recovered session ever claimed a piece")
 	}
 	rep.Finish()
 }
